@@ -21,9 +21,11 @@
 (*                    Remove (Delete with id constraint)                   *)
 (*   branches.Store   Add, Remove (Delete with commit constraint)          *)
 (* Entries <= HEAD are immutable, so reloading the table is folded into    *)
-(* the ReadHead step.  Back-to-back ReadHeads of one client with no other  *)
-(* storage operation of that client in between are one step here (the      *)
-(* harness' gate coalesces them the same way).                             *)
+(* the ReadHead step.  Every ReadHead is a step of its own: an operation   *)
+(* performs op.pre preliminary reads (journal open, lookup by name / id:   *)
+(* the number is measured on the real code by the harness) before the      *)
+(* decisive read whose table the constraint is evaluated on, so another    *)
+(* client can commit between any two of them.                              *)
 (*                                                                         *)
 (* The storage offers an atomic put-if-absent (file engine O_EXCL, or the  *)
 (* harness' in-memory engine).  Crash(c) (C17) stops a client at any step. *)
@@ -64,7 +66,8 @@ VARIABLES entries,  \* the journal: sequence of entry records (entry n exists if
           sched     \* the schedule so far: sequence of [c, lbl, n, r]
 vars == <<entries, tabs, head, cobjs, pc, opi, at, tbl, loc, fresh, resp, last, budget, crashes, sched>>
 
-NoLoc == [par |-> -1, cid |-> -1, cr |-> 0, jr |-> 0, pend |-> [k |-> "none"], retry |-> FALSE, txn |-> -1, t0 |-> 0]
+NoLoc == [par |-> -1, cid |-> -1, cr |-> 0, jr |-> 0, pend |-> [k |-> "none"], retry |-> FALSE, txn |-> -1, t0 |-> 0, npre |-> 0,
+          lkk |-> "none", lkv |-> -1]   \* what the last preliminary read looked up (key name / value)
 
 Table(n) == tabs[n + 1]
 Has(t, k) == k \in DOMAIN t
@@ -111,9 +114,36 @@ Constraint(t, e) ==
                        ELSE IF Has(t, e.key) THEN "exists" ELSE "ok"
 
 \* ---- first ReadHead of an operation (lookup phase) --------------------------
+NPre(c) == IF pc[c] = "idle" THEN 0 ELSE loc[c].npre
+HasPre(op) == op.k \in {"tip", "insert", "rmkey", "rename", "rmid"}
+
+\* ---- preliminary reads: refresh the cache, leave early if the lookup already fails ----
+RHPre(c) ==
+  /\ pc[c] \in {"idle", "pre"} /\ HasOp(c) /\ CanRun(c)
+  /\ HasPre(CurOp(c)) /\ NPre(c) < CurOp(c).pre
+  /\ LET r == Reload(c)  t == r.tbl  op == CurOp(c)
+         l0 == IF pc[c] = "idle" THEN [NoLoc EXCEPT !.t0 = Len(sched) + 1] ELSE loc[c]
+         \* the first op.open reads only open the journal (branches.OpenStore in CreateBranch) and check nothing
+         ex == CASE l0.npre < op.open -> "ok"
+                 [] op.k \in {"tip", "rmkey"} -> IF Has(t, op.key) THEN "ok" ELSE "notfound"
+                 [] op.k = "insert" -> IF Has(t, op.key) THEN "exists" ELSE "ok"
+                 [] op.k \in {"rename", "rmid"} -> IF KeyOfId(t, op.id) = "none" THEN "notfound" ELSE "ok" IN
+     /\ at' = [at EXCEPT ![c] = r.at] /\ tbl' = [tbl EXCEPT ![c] = t]
+     /\ Sched(c, "rh", head, "")
+     /\ UNCHANGED <<entries, tabs, head, cobjs, fresh, crashes>>
+     /\ IF ex # "ok"
+        THEN Finish(c, ex, -1, -1) /\ loc' = [loc EXCEPT ![c] = l0]
+        ELSE \* remember what was looked up: RemoveBranch keeps the branch config (its commit),
+             \* RenamePool / RemovePool keep the pool config (its current name)
+             /\ loc' = [loc EXCEPT ![c] = [l0 EXCEPT !.npre = l0.npre + 1,
+                                                     !.lkk = IF op.k \in {"rename", "rmid"} THEN KeyOfId(t, op.id) ELSE op.key,
+                                                     !.lkv = IF op.k = "rmkey" THEN t[op.key] ELSE -1]]
+             /\ pc' = [pc EXCEPT ![c] = "pre"] /\ UNCHANGED <<opi, resp>>
+
 RH0(c) ==
-  /\ pc[c] \in {"idle", "relook"} /\ HasOp(c) /\ CanRun(c)
+  /\ pc[c] \in {"idle", "pre", "relook"} /\ HasOp(c) /\ CanRun(c)
   /\ ~(pc[c] = "idle" /\ CurOp(c).k = "load")        \* a load starts with RHOpen
+  /\ (pc[c] = "relook" \/ ~HasPre(CurOp(c)) \/ NPre(c) >= CurOp(c).pre)
   /\ LET r == Reload(c)  t == r.tbl  op == CurOp(c)
          l0 == IF pc[c] = "idle" THEN [NoLoc EXCEPT !.t0 = Len(sched) + 1] ELSE loc[c] IN
      /\ at' = [at EXCEPT ![c] = r.at] /\ tbl' = [tbl EXCEPT ![c] = t]
@@ -134,11 +164,14 @@ RH0(c) ==
                /\ Finish(c, IF Has(t, op.key) THEN "ok" ELSE "notfound", IF Has(t, op.key) THEN t[op.key] ELSE -1, -1)
                /\ loc' = [loc EXCEPT ![c] = l0] /\ UNCHANGED fresh
           [] OTHER ->
-               LET e == CASE op.k = "insert" -> [k |-> "add", key |-> op.key, val |-> fresh, txn |-> fresh]
-                          [] op.k = "rmkey"  -> [k |-> "del", key |-> op.key, exp |-> IF Has(t, op.key) THEN t[op.key] ELSE -1, txn |-> fresh]
-                          [] op.k = "rmid"   -> [k |-> "del", key |-> KeyOfId(t, op.id), exp |-> op.id, txn |-> fresh]
-                          [] op.k = "rename" -> [k |-> "move", old |-> KeyOfId(t, op.id), key |-> op.new, val |-> op.id, txn |-> fresh]
-                   chk == IF op.k \in {"rmid", "rename"} /\ KeyOfId(t, op.id) = "none" THEN "notfound" ELSE Constraint(t, e)
+               LET looked == l0.npre > 0      \* the lookup happened in an earlier read; its result is kept
+                   oldk == IF looked THEN l0.lkk ELSE KeyOfId(t, op.id)
+                   e == CASE op.k = "insert" -> [k |-> "add", key |-> op.key, val |-> fresh, txn |-> fresh]
+                          [] op.k = "rmkey"  -> [k |-> "del", key |-> op.key,
+                                                 exp |-> IF looked THEN l0.lkv ELSE IF Has(t, op.key) THEN t[op.key] ELSE -1, txn |-> fresh]
+                          [] op.k = "rmid"   -> [k |-> "del", key |-> oldk, exp |-> op.id, txn |-> fresh]
+                          [] op.k = "rename" -> [k |-> "move", old |-> oldk, key |-> op.new, val |-> op.id, txn |-> fresh]
+                   chk == IF op.k \in {"rmid", "rename"} /\ oldk = "none" THEN "notfound" ELSE Constraint(t, e)
                IN /\ fresh' = fresh + 1
                   /\ IF chk # "ok"
                      THEN /\ Finish(c, chk, -1, e.txn) /\ loc' = [loc EXCEPT ![c] = [l0 EXCEPT !.txn = e.txn]]
@@ -250,10 +283,10 @@ Init ==
   /\ loc = [c \in Clients |-> NoLoc]
   /\ fresh = 100 /\ resp = <<>> /\ last = 0 /\ budget = 0 /\ crashes = 0 /\ sched = <<>>
 
-Next == \E c \in Clients : RHOpen(c) \/ Up(c) \/ RH0(c) \/ PutC(c) \/ RH1(c) \/ CAS(c) \/ WH(c) \/ RMC(c) \/ Fin(c) \/ Crash(c)
+Next == \E c \in Clients : RHOpen(c) \/ Up(c) \/ RHPre(c) \/ RH0(c) \/ PutC(c) \/ RH1(c) \/ CAS(c) \/ WH(c) \/ RMC(c) \/ Fin(c) \/ Crash(c)
 
 Spec == Init /\ [][Next]_vars
-FairSpec == Spec /\ \A c \in Clients : WF_vars(RHOpen(c) \/ Up(c) \/ RH0(c) \/ PutC(c) \/ RH1(c) \/ CAS(c) \/ WH(c) \/ RMC(c) \/ Fin(c))
+FairSpec == Spec /\ \A c \in Clients : WF_vars(RHOpen(c) \/ Up(c) \/ RHPre(c) \/ RH0(c) \/ PutC(c) \/ RH1(c) \/ CAS(c) \/ WH(c) \/ RMC(c) \/ Fin(c))
 
 Done == \A c \in Clients : pc[c] = "dead" \/ (pc[c] = "idle" /\ ~HasOp(c))
 
